@@ -114,6 +114,18 @@ def run(rep, tier, seed, model_ok=True, effort=1):
             rep.violation("{pep440_version} text is rejected by the derived search pattern (%s)" % type(ex).__name__, input=inp, **{"class": "pep440-pattern-rejects"})
         if version.parse_version(version.to_pep440(s)) != kp:
             rep.violation("{pep440_version} text differs from to_pep440 beyond normalisation", input=inp, **{"class": "pep440-vs-cli"})
+        # the same comparisons with an independent PEP 440 reader (packaging), for strings it accepts: the value the CLI prints and the text
+        # written for {pep440_version} denote the version {version} denotes
+        try:
+            import packaging.version as _pk
+            ref_s, ref_p, ref_cli = _pk.Version(s), _pk.Version(p), _pk.Version(version.to_pep440(s))
+        except Exception:
+            ref_s = None
+        if ref_s is not None:
+            if ref_p != ref_s:
+                rep.violation("{pep440_version} denotes a different version than {version} (packaging.version)", input=inp, **{"class": "pep440-differs"})
+            elif ref_cli != ref_s:
+                rep.violation("the PEP440 value the CLI prints (%s) denotes a different version than {version} (packaging.version)" % version.to_pep440(s), input=inp, **{"class": "pep440-vs-cli"})
         rep.sample(dict(pattern=vp, version=s, pep440=p))
     show_streams(rep, impl)
     update_streams(rep, impl)
